@@ -139,7 +139,7 @@ pub fn run(tier: Tier) -> Report {
                 let mut acc = Acc::default();
                 run_items(&mut acc, c, &items);
                 refine_violations(&mut acc, 0, &items, 1, &|a, it| run_items(a, c, it), &|it| json!(it));
-                acc.bucket("large images (65,539 and 262,147 pixels) round-tripped", 1);
+                acc.bucket("large images (65,539, 262,147 and 1281x721 pixels) round-tripped", 1);
                 rep.acc.merge(acc);
             }
         }
